@@ -68,8 +68,16 @@ func bfRangeSetup(s *rt.Sim, tier string) func() {
 			if err := ctx.Server.StartBatch(); err != nil {
 				return err
 			}
+			queued := 0
 			for i := 0; i < n; i++ {
 				b := blocks[pick("op", len(blocks))]
+				// an honest server keeps what it queues below the protocol's own
+				// send-queue byte limit (2.5 MB in Busy/Streaming); the 648 KB
+				// epoch-boundary block would exceed it when queued four times
+				if queued+len(b.Data) > 2000000 {
+					b = blocks[0]
+				}
+				queued += len(b.Data)
 				served = append(served, b)
 				if err := ctx.Server.Block(b.Type, b.Data); err != nil {
 					return err
@@ -129,7 +137,7 @@ func bfRangeSetup(s *rt.Sim, tier string) func() {
 		for r := 0; r < rounds; r++ {
 			before := len(served)
 			err := cConn.BlockFetch().Client.GetBlockRange(samplePoint(uint64(r)), samplePoint(uint64(r+5)))
-			if pair.A.Deadline+pair.B.Deadline > 0 {
+			if pair.A.Deadline+pair.B.Deadline > 0 || keepAliveTimedOut(cw, sw) {
 				return
 			}
 			nserved := len(served) - before
@@ -146,7 +154,7 @@ func bfRangeSetup(s *rt.Sim, tier string) func() {
 			for i := 0; i < 3000 && completions < expectCompletions && len(cw.errs) == 0 && len(sw.errs) == 0; i++ {
 				sleep(200 * time.Millisecond)
 			}
-			if pair.A.Deadline+pair.B.Deadline > 0 {
+			if pair.A.Deadline+pair.B.Deadline > 0 || keepAliveTimedOut(cw, sw) {
 				return
 			}
 			if completions < expectCompletions {
@@ -333,8 +341,13 @@ func bfMixedSetup(s *rt.Sim, tier string) func() {
 			if err := ctx.Server.StartBatch(); err != nil {
 				return err
 			}
+			queued := 0
 			for i := 0; i < n; i++ {
 				b := blocks[pick("op", len(blocks))]
+				if queued+len(b.Data) > 2000000 {
+					b = blocks[0] // stay below the server's own send-queue byte limit
+				}
+				queued += len(b.Data)
 				servedRange = append(servedRange, b)
 				if slowServer && chance("op", 1, 3) {
 					sleep(oneOf("op", time.Millisecond, 30*time.Millisecond, 400*time.Millisecond))
@@ -420,7 +433,7 @@ func bfMixedSetup(s *rt.Sim, tier string) func() {
 				sleep(200 * time.Millisecond)
 			}
 		}
-		if pair.A.Deadline+pair.B.Deadline > 0 {
+		if pair.A.Deadline+pair.B.Deadline > 0 || keepAliveTimedOut(cw, sw) {
 			return
 		}
 		nSingle, nRange, rangeOK := 0, 0, 0
@@ -470,7 +483,7 @@ func bfMixedSetup(s *rt.Sim, tier string) func() {
 		for i := 0; i < 3000 && completions < rangeOK; i++ {
 			sleep(200 * time.Millisecond)
 		}
-		if pair.A.Deadline+pair.B.Deadline > 0 {
+		if pair.A.Deadline+pair.B.Deadline > 0 || keepAliveTimedOut(cw, sw) {
 			return
 		}
 		if completions != rangeOK {
